@@ -4,7 +4,7 @@ CONSTANTS
   MaxImg = 4
   Chain3Fmt = TRUE
   Defects = {}
-  AsIs = {"zero_dim", "float_scale", "vresize_overshoot"}
+  AsIs = {"float_scale"}
 INIT Init
 NEXT Next
 INVARIANT InvNoFail
